@@ -185,7 +185,10 @@ def run(ck):
     tmeta += ds
     ck.count(len(cs), 'text:number')
     # the probes behind C14_text_name_whitespace_ends_name, against the implementation (D34, fixed by d9c2c16: reported again if it returns)
-    ws_probe = st.whitespace_probe()
+    try:
+        ws_probe = st.whitespace_probe()
+    except Exception as e:
+        ws_probe = f'raises {type(e).__name__}: {e}'
     tsize = 60
     tchunks = [tcases[i:i + tsize] for i in range(0, len(tcases), tsize)]
     touts = ck.coq_eval_many('st', [st.cases_file(ch) for ch in tchunks], jobs=12)
